@@ -514,6 +514,108 @@ const (
 	kJump
 )
 
+// orChain recognises   if c goto T else B1;  B1: t1 = pure compare; if t1 goto T else B2; ...
+// and returns the disjunction and the last block of the chain. Conditions: every
+// chain block holds only side-effect-free value instructions (comparisons,
+// conversions, constants' uses) and its If; the blocks have a single predecessor
+// (the previous chain block); every phi of T gives the same value for all chain
+// edges. The values computed in the chain blocks are set in the frame, so code
+// after the chain that uses them (none in practice) still finds them.
+func (in *Interp) orChain(fr *frame, first *ssa.If, c *Term) (*Term, *ssa.BasicBlock, bool) {
+	b := fr.block
+	target := b.Succs[0]
+	cur := b
+	disj := c
+	n := 0
+	for {
+		nb := cur.Succs[1]
+		if nb == target || len(nb.Preds) != 1 || len(nb.Instrs) < 2 || len(nb.Instrs) > 4 {
+			break
+		}
+		nif, ok := nb.Instrs[len(nb.Instrs)-1].(*ssa.If)
+		if !ok || nb.Succs[0] != target {
+			break
+		}
+		pure := true
+		for _, ins := range nb.Instrs[:len(nb.Instrs)-1] {
+			switch v := ins.(type) {
+			case *ssa.BinOp:
+				switch v.Op {
+				case token.EQL, token.NEQ, token.LSS, token.LEQ, token.GTR, token.GEQ:
+					if _, isIface := v.X.Type().Underlying().(*types.Interface); isIface {
+						pure = false
+					}
+					if b, isBasic := v.X.Type().Underlying().(*types.Basic); !isBasic || b.Info()&types.IsString != 0 {
+						pure = false
+					}
+				default:
+					pure = false
+				}
+			default:
+				pure = false
+			}
+		}
+		if !pure {
+			break
+		}
+		// phis of the target must not distinguish the edges of the chain
+		same := true
+		for _, ins := range target.Instrs {
+			phi, ok := ins.(*ssa.Phi)
+			if !ok {
+				break
+			}
+			var v0 ssa.Value
+			for i, p := range target.Preds {
+				if p == b || p == nb || in.inChain(b, p, nb) {
+					if v0 == nil {
+						v0 = phi.Edges[i]
+					} else if phi.Edges[i] != v0 {
+						same = false
+					}
+				}
+			}
+		}
+		if !same {
+			break
+		}
+		for _, ins := range nb.Instrs[:len(nb.Instrs)-1] {
+			bo := ins.(*ssa.BinOp)
+			in.cur = fr
+			fr.pos = bo.Pos()
+			if in.visit(fr, bo) != kNext {
+				return nil, nil, false
+			}
+		}
+		c2, ok := fr.get(nif.Cond).(*Term)
+		if !ok {
+			break
+		}
+		disj = BOr(disj, in.simp(c2))
+		cur = nb
+		n++
+		if n > 64 {
+			break
+		}
+	}
+	if n == 0 {
+		return nil, nil, false
+	}
+	return disj, cur, true
+}
+
+// inChain: is p one of the chain blocks between first and last (following else edges)?
+func (in *Interp) inChain(first, p, last *ssa.BasicBlock) bool {
+	for c := first; ; c = c.Succs[1] {
+		if c == p {
+			return true
+		}
+		if c == last || len(c.Succs) < 2 {
+			return false
+		}
+	}
+}
+
 func (in *Interp) noteLoop(fr *frame, b *ssa.BasicBlock) {
 	// crude loop-header detection: a block with a back edge (pred index >= own index)
 	isHeader := false
@@ -676,6 +778,21 @@ func (in *Interp) visit(fr *frame, instr ssa.Instruction) cont {
 		c := in.simp(fr.get(x.Cond).(*Term))
 		if !c.IsConst() && in.tryIfConvert(fr, x, c) {
 			return kJump
+		}
+		// or-chain (switch with several values per case, a || b || ...): the else
+		// block only compares and branches to the same target: one decision on the
+		// disjunction instead of one fork per alternative
+		if !c.IsConst() {
+			if c2, last, ok := in.orChain(fr, x, c); ok {
+				if in.branch(c2) {
+					// which alternative held does not matter to the target (no phi
+					// distinguishes the chain's edges): enter it from the last block
+					fr.prev, fr.block = last, fr.block.Succs[0]
+				} else {
+					fr.prev, fr.block = last, last.Succs[1]
+				}
+				return kJump
+			}
 		}
 		succ := 1
 		if in.branch(c) {
